@@ -123,6 +123,53 @@ def build_translator():
     return os.path.join(CACHE, "target-translator", "release", "bm2coq")
 
 
+STABLE_SOUND = ["extern_crate_alloc", "extern_crate_std", "latest_stable_rust"]
+EXPAND_CONFIGS = {   # name -> cargo features (the feature sets of C20 / C04)
+    "none": [],
+    "alloc": ["extern_crate_alloc"],
+    "aat": ["extern_crate_alloc", "align_offset", "track_caller"],
+    "all": STABLE_SOUND,
+}
+
+
+def expand_crate():
+    """Macro-expand the crate once per feature configuration (nightly rustc, offline); returns
+    {name: path or None}.  Cached by the hash of /repo's sources."""
+    d = os.path.join(CACHE, "expand", repo_hash()[:16])
+    os.makedirs(d, exist_ok=True)
+    out = {}
+    procs = []
+    for name, feats in EXPAND_CONFIGS.items():
+        path = os.path.join(d, name + ".rs")
+        out[name] = path
+        if os.path.exists(path) and os.path.getsize(path) > 1000:
+            continue
+        cmd = ["cargo", "+nightly", "rustc", "--offline", "--lib"]
+        if feats:
+            cmd += ["--features", ",".join(feats)]
+        cmd += ["--", "-Zunpretty=expanded"]
+        e = dict(ENV)
+        e["CARGO_TARGET_DIR"] = os.path.join(CACHE, "target-expand-" + name)
+        procs.append((name, path, subprocess.Popen(cmd, cwd=REPO, env=e, stdout=open(path + ".tmp", "w"), stderr=subprocess.PIPE)))
+    for name, path, p in procs:
+        try:
+            _, err = p.communicate(timeout=600)
+        except subprocess.TimeoutExpired:
+            p.kill()
+            err = b"timeout"
+        if p.returncode == 0 and os.path.getsize(path + ".tmp") > 1000:
+            os.replace(path + ".tmp", path)
+        else:
+            out[name] = None
+            log("expansion of config %s failed: %s" % (name, err.decode("utf-8", "replace")[-400:]))
+    # keep only the two most recent expansion directories
+    root = os.path.join(CACHE, "expand")
+    ds = sorted((os.path.join(root, x) for x in os.listdir(root)), key=os.path.getmtime)
+    for old in ds[:-2]:
+        shutil.rmtree(old, ignore_errors=True)
+    return out
+
+
 def regen_model():
     """Run the translator on the working tree.  Returns {module: {status, differs_from_golden, ...}}.
     Modules the translator rejects fall back to the committed golden model (fail closed)."""
@@ -130,7 +177,11 @@ def regen_model():
     tmp = os.path.join(CACHE, "gen.new")
     shutil.rmtree(tmp, ignore_errors=True)
     os.makedirs(tmp)
-    rc, out = sh([exe, REPO, tmp], timeout=120)
+    exp = expand_crate()
+    extra = ["%s=%s" % (k, v) for k, v in exp.items() if v]
+    if len(extra) != len(exp):
+        extra = []   # an incomplete set of expansions gives no table: the golden table is used
+    rc, out = sh([exe, REPO, tmp] + extra, timeout=120)
     status = {}
     meta = {}
     try:
@@ -288,7 +339,7 @@ def build_oracle():
     exe = os.path.join(odir, "oracle")
     if os.path.exists(exe) and os.path.exists(stamp) and open(stamp).read() == key:
         return exe, None
-    rc, out = coq_make(["theories/Extract/Driver.vo", "theories/Extract/DriverAlloc.vo"])
+    rc, out = coq_make(["theories/Extract/Driver.vo", "theories/Extract/DriverAlloc.vo", "theories/Extract/DriverTables.vo"])
     if rc != 0:
         return None, "model does not compile: " + out[-1500:]
     for f in ("Model.ml", "Model.mli"):
